@@ -542,6 +542,17 @@ func registerClockVx(e *Engine) {
 	})
 }
 
+func init() {
+	extraIntrinsics = append(extraIntrinsics, func(e *Engine) {
+		// vx.TimeBack(base, ageSec) = base - ageSec seconds exactly (whole-second
+		// instants that can coincide with a requested time)
+		e.reg(vxPath+".TimeBack", func(ex *Exec, fr *frame, args []Value) Value {
+			s, n := ex.timeParts(args[0])
+			return ex.mkTime(ex.ts.Bin(OpSub, s, args[1].(*Term)), n)
+		})
+	})
+}
+
 func registerTime(e *Engine) {
 	e.reg("time.Now", func(ex *Exec, fr *frame, args []Value) Value { return ex.clockNow() })
 	e.reg("(time.Time).Before", func(ex *Exec, fr *frame, args []Value) Value { return ex.timeLess(args[0], args[1]) })
